@@ -33,6 +33,9 @@ Tup(es) == [k |-> "tup", es |-> es]
 Blk(ss) == [k |-> "blk", ss |-> ss]
 Ife(c, t, e) == [k |-> "ife", c |-> c, t |-> t, e |-> e]
 Tr(k) == Call("tr", <<I(k)>>)
+Nil == [k |-> "nil"]
+\* the operator applied to a source whose payload is void
+TV(op, car, k, flag) == [k |-> IF op = "?" THEN "try" ELSE "unwrap", e |-> Call("guard", <<I(k), flag>>)]
 P(n, d) == [n |-> n, ty |-> d, d |-> NoD]
 FnD(name, ps, ret, body) == [n |-> name, ps |-> ps, ret |-> ret, body |-> body]
 
@@ -50,13 +53,17 @@ Helpers(car) == <<
       <<PrintS(S("add3")), ExprS(Bin("+", Bin("+", V("a"), V("b")), V("c")))>>),
   FnD(SrcN(car), <<P("k", "int"), P("good", "bool")>>, TyOf(car, "int"),
       <<PrintS(Bin("..", S("src "), V("k"))), ExprS(Ife(V("good"), Good(car, V("k")), Bad(car)))>>),
+  FnD("guard", <<P("k", "int"), P("good", "bool")>>, TyOf(car, "void"),
+      <<PrintS(Bin("..", S("guard "), V("k"))), ExprS(Ife(V("good"), Good(car, Nil), Bad(car)))>>),
   FnD(SrcAN(car), <<P("k", "int"), P("good", "bool")>>, TyOf(car, "array<int>"),
       <<PrintS(Bin("..", S("srca "), V("k"))), ExprS(Ife(V("good"), Good(car, Arr(<<V("k"), Bin("+", V("k"), I(1))>>)), Bad(car)))>> ) >>
 
 Positions == <<"stmt", "let", "left", "right", "deep", "neg", "arg1of1", "arg1of3", "arg2of3", "arg3of3",
                "receiver", "methodarg", "tuple", "array", "nested", "twice", "for", "forarr", "while", "ifcond", "ifbranch",
                "matchscrut", "matcharm", "return", "index", "indexee", "structarg", "variantarg", "assign", "assignop",
-               "idxassign", "idxassigni", "fldassign", "concat", "block", "lambda", "cmp", "andrhs", "second", "first">>
+               "idxassign", "idxassigni", "fldassign", "concat", "block", "lambda", "cmp", "andrhs", "second", "first",
+               \* the tried payload is void (its success leaves nothing behind), in positions where the operand stack matters
+               "vstmt", "vfor", "vforarr", "voperand", "vwhile">>
 \* positions combined pairwise in the thorough tier
 CorePositions == <<"stmt", "let", "right", "deep", "arg2of3", "receiver", "tuple", "array", "nested", "for", "while",
                    "matchscrut", "structarg", "assignop", "lambda">>
@@ -126,20 +133,44 @@ PosOf(pos, n, op, car, g) ==
                    PrintS(Call("h" \o sfx, <<Tr(k + 1)>>))>>, v |-> I(0)]
     [] pos = "cmp"     -> [ss |-> <<Let(tt, Bin("==", t, I(k + 5))), PrintS(V(tt))>>, v |-> I(0)]
     [] pos = "andrhs"  -> [ss |-> <<Let(tt, Bin("and", Bin("==", Tr(k + 1), I(k + 1)), Bin("==", t, I(k + 5)))), PrintS(V(tt))>>, v |-> I(0)]
+    [] pos = "vstmt"   -> [ss |-> <<ExprS(TV(op, car, k + 5, g))>>, v |-> Tr(k + 1)]
+    [] pos = "vfor"    -> [ss |-> <<Var(acc, I(0)),
+                                    [k |-> "for", p |-> PB(ii), it |-> [k |-> "count", e |-> I(3)],
+                                     body |-> <<ExprS(TV(op, car, k + 5, late(V(ii), 1))), Assign(V(acc), "=", Bin("+", V(acc), Tr(k + 1)))>>]>>,
+                           v |-> V(acc)]
+    [] pos = "vforarr" -> [ss |-> <<Var(acc, I(0)),
+                                    [k |-> "for", p |-> PB(ii), it |-> [k |-> "array", e |-> Arr(<<I(1), I(2), I(3)>>)],
+                                     body |-> <<ExprS(TV(op, car, k + 5, late(V(ii), 2))), Assign(V(acc), "=", Bin("+", V(acc), V(ii)))>>]>>,
+                           v |-> V(acc)]
+    [] pos = "vwhile"  -> [ss |-> <<Var(ii, I(0)), Var(acc, I(0)),
+                                    [k |-> "while", c |-> Bin("<", V(ii), I(3)),
+                                     body |-> <<Assign(V(ii), "+=", I(1)), ExprS(TV(op, car, k + 5, late(V(ii), 2))),
+                                                Assign(V(acc), "=", Bin("+", V(acc), V(ii)))>>]>>,
+                           v |-> V(acc)]
+    [] pos = "voperand" -> letv(Bin("+", Tr(k + 1), Blk(<<ExprS(TV(op, car, k + 5, g)), ExprS(Tr(k + 2))>>)))
     [] pos = "second"  -> letv(Bin("+", T(op, car, k + 4, Bl(TRUE)), t))                \* an earlier success, then the operand of interest
     [] pos = "first"   -> letv(Bin("+", t, T(op, car, k + 6, Bl(TRUE))))                \* a failure here must skip the later operand
 
 \* ---------------------------------------------------------------- programs
 \* a shape: [pos1, pos2 ("" = single position), op1, op2, car, ctx ("fn" | "main"), good1, good2 (ctx = main only)]
-RetTy(c) == IF c.op1 = "?" \/ (c.pos2 # "" /\ c.op2 = "?") THEN TyOf(c.car, "int") ELSE "int"
-Wrap(c, e) == IF RetTy(c) = "int" THEN e ELSE Good(c.car, e)
+\* c.ret: payload type of the enclosing function's result ("int" | "void"; "void" only with `?`)
+RetTy(c) == IF c.op1 = "?" \/ (c.pos2 # "" /\ c.op2 = "?") THEN TyOf(c.car, c.ret) ELSE "int"
+Wrap(c, e) == IF RetTy(c) = "int" THEN <<ExprS(e)>>
+              ELSE IF c.ret = "void" THEN <<PrintS(e), ExprS(Good(c.car, Nil))>> ELSE <<ExprS(Good(c.car, e))>>
 FBody(c, g1, g2) ==
   LET a == PosOf(c.pos1, 1, c.op1, c.car, g1)
       b == IF c.pos2 = "" THEN [ss |-> <<>>, v |-> I(0)] ELSE PosOf(c.pos2, 2, c.op2, c.car, g2)
   IN <<PrintS(S("s1"))>> \o a.ss \o <<PrintS(S("s2"))>> \o b.ss \o (IF c.pos2 = "" THEN <<>> ELSE <<PrintS(S("s3"))>>)
-     \o <<ExprS(Wrap(c, Bin("+", a.v, b.v)))>>
+     \o Wrap(c, Bin("+", a.v, b.v))
 CallF(c, g1, g2) == Call("f", IF c.pos2 = "" THEN <<Bl(g1)>> ELSE <<Bl(g1), Bl(g2)>>)
 Observe(n, e) == <<Let("r" \o ToString(n), Tup(<<I(100), e, I(200)>>)), PrintS(V("r" \o ToString(n)))>>
+\* a result with a void payload is observed through a match (1 = some/ok, 0 = none/err)
+GoodC(car) == IF car = "option" THEN "some" ELSE "ok"
+BadC(car) == IF car = "option" THEN "none" ELSE "err"
+ObserveV(n, car, e) ==
+  Observe(n, [k |-> "match", s |-> e, arms |-> <<
+                [p |-> [k |-> "var", c |-> GoodC(car), ps |-> <<[k |-> "wild"]>>], e |-> I(1)],
+                [p |-> [k |-> "var", c |-> BadC(car), ps |-> IF car = "option" THEN <<>> ELSE <<[k |-> "wild"]>>], e |-> I(0)] >>])
 \* flag combinations tried, all-success first; with `!` a failing call ends the program, so it comes last
 Flags(c) == IF c.pos2 = "" THEN <<<<TRUE, TRUE>>, <<FALSE, TRUE>>>>
             ELSE IF c.op1 = "!" THEN <<<<TRUE, TRUE>>, <<TRUE, FALSE>>, <<FALSE, TRUE>>>>
@@ -149,22 +180,26 @@ ProgOf(c) ==
      LET ps == IF c.pos2 = "" THEN <<P("g1", "bool")>> ELSE <<P("g1", "bool"), P("g2", "bool")>>
          fl == Flags(c)
      IN File1(<<PtT>>, Helpers(c.car) \o <<FnD("f", ps, RetTy(c), FBody(c, V("g1"), V("g2")))>>,
-              ConcatAll([i \in 1..Len(fl) |-> Observe(i, CallF(c, fl[i][1], fl[i][2]))]) \o <<PrintS(S("end"))>>)
+              ConcatAll([i \in 1..Len(fl) |-> IF RetTy(c) # "int" /\ c.ret = "void"
+                                              THEN ObserveV(i, c.car, CallF(c, fl[i][1], fl[i][2]))
+                                              ELSE Observe(i, CallF(c, fl[i][1], fl[i][2]))]) \o <<PrintS(S("end"))>>)
   ELSE \* `!` at the top level of the program
      LET a == PosOf(c.pos1, 1, c.op1, c.car, Bl(c.good1)) IN
      File1(<<PtT>>, Helpers(c.car), <<PrintS(S("s1"))>> \o a.ss \o <<PrintS(S("s2")), PrintS(a.v), PrintS(S("end"))>>)
 
 Seq2Set(s) == {s[i] : i \in 1..Len(s)}
-Singles == {[pos1 |-> p, pos2 |-> "", op1 |-> o, op2 |-> o, car |-> car, ctx |-> "fn", good1 |-> TRUE, good2 |-> TRUE] :
-              p \in Seq2Set(Positions), o \in OpsTU, car \in Carriers}
-MainSingles == {[pos1 |-> p, pos2 |-> "", op1 |-> "!", op2 |-> "!", car |-> car, ctx |-> "main", good1 |-> g, good2 |-> TRUE] :
+Singles == {[pos1 |-> p, pos2 |-> "", op1 |-> o, op2 |-> o, car |-> car, ctx |-> "fn", good1 |-> TRUE, good2 |-> TRUE, ret |-> r] :
+              p \in Seq2Set(Positions), o \in OpsTU, car \in Carriers, r \in {"int", "void"}} \ {c \in
+            [pos1 : Seq2Set(Positions), pos2 : {""}, op1 : OpsTU, op2 : OpsTU, car : Carriers, ctx : {"fn"}, good1 : {TRUE}, good2 : {TRUE},
+             ret : {"void"}] : c.op1 = "!" \/ c.pos1 \in {"return", "lambda"}}
+MainSingles == {[pos1 |-> p, pos2 |-> "", op1 |-> "!", op2 |-> "!", car |-> car, ctx |-> "main", good1 |-> g, good2 |-> TRUE, ret |-> "int"] :
               p \in Seq2Set(Positions) \ {"return"}, car \in Carriers, g \in BOOLEAN}
-Pairs == {[pos1 |-> p, pos2 |-> q, op1 |-> o1, op2 |-> o2, car |-> car, ctx |-> "fn", good1 |-> TRUE, good2 |-> TRUE] :
+Pairs == {[pos1 |-> p, pos2 |-> q, op1 |-> o1, op2 |-> o2, car |-> car, ctx |-> "fn", good1 |-> TRUE, good2 |-> TRUE, ret |-> "int"] :
               p \in Seq2Set(CorePositions), q \in Seq2Set(CorePositions), o1 \in OpsTU, o2 \in OpsTU, car \in Carriers}
 
 OpN(o) == IF o = "?" THEN "try" ELSE "unwrap"
 IdOf(c) == c.pos1 \o "-" \o OpN(c.op1) \o (IF c.pos2 = "" THEN "" ELSE "." \o c.pos2 \o "-" \o OpN(c.op2)) \o "." \o c.car \o "." \o c.ctx \o
-           (IF c.ctx = "main" THEN (IF c.good1 THEN ".ok" ELSE ".fail") ELSE "")
+           (IF c.ctx = "main" THEN (IF c.good1 THEN ".ok" ELSE ".fail") ELSE "") \o (IF c.ret = "void" THEN ".retvoid" ELSE "")
 CaseOf(c) ==
   LET L == Layout(ProgOf(c))
       r == Run(L.sem, 300)
